@@ -145,7 +145,7 @@ func (fc *FnCtx) staticCall(res ssa.Value, f *ssa.Function, c *ssa.CallCommon, i
 		if m := fc.builtinModel(name, res, c, in); m {
 			return
 		}
-		mods := fc.e.modset(f)
+		mods := fc.callMods(c)
 		fc.havocCall(&fc.cur, mods)
 		if strings.HasPrefix(name, "(") || !strings.Contains(name, ".") || strings.HasPrefix(name, "dnsutil.") {
 			fc.noteUncontracted(name)
